@@ -111,7 +111,7 @@ func (m *Model) RunResponse(s *Sink, rule string) {
 	// abstract: String(FILE, data) yields the token "page", String(ErrorPagePath, _) "custom", errorPage(_) "builtin".
 	failErrorM := m.Method("fail", "Error", "Error")
 	nonNilCtor := failErrorM != nil && returnsFreshError(failErrorM)
-	ep := m.PkgFunc("textwire", "errorPage")
+	ep := m.PkgFuncOr("textwire", "errorPage", func(f *ssa.Function) bool { return readsGlobal(f, "defaultErrorPage") })
 	type outcome struct {
 		writes []string
 		ret    string // nil | non-nil | unknown
